@@ -198,7 +198,18 @@ def _on_ace(self, value, exc, token):
     if token is None or target not in ("ios", "nxos") or token["from"] not in ("ios", "nxos"):
         return
     old = token["snap"]
-    if _multi(old) or old["type"] != "extended":
+    if old["type"] != "extended":
+        return
+    if _multi(old):
+        # an entry cannot split itself: a refusal is fine, but whatever it returns must be syntax of the target platform
+        if exc is None:
+            _bump("multi_port_ace_conversions_returned")
+            bad = _validate_line(self.line, target, token["version"])
+            for prob in bad:
+                FOUND.append({"what": "Ace.platform returned a multi-port entry that is not valid syntax on the target platform",
+                              "detail": {"before": old["line"], "after": self.line, "direction": f"{token['from']}->{target}", "problem": prob}})
+        else:
+            _bump("multi_port_ace_conversions_refused")
         return
     _bump("ace_conversions_judged")
     if exc is not None:
@@ -494,8 +505,16 @@ def gen_case(rng):
         return {"k": "acl", "platform": platform, "text": text, "members": members, "kwargs": kw,
                 "alias": rng.choice([0, 0, 1, 2]), "loose": loose}
     if roll < 0.7:
-        ace = grammar.gen_ace(rng, platform, version, foreign=False, allow_multi=False, ws=False, max_k=3)
-        case = {"k": "ace", "platform": platform, "text": ace["text"], "kwargs": kw}
+        ace = grammar.gen_ace(rng, platform, version, foreign=False, allow_multi=platform == "ios" and rng.random() < 0.15, ws=False, max_k=3)
+        text = ace["text"]
+        if platform == "ios" and " eq " in text and rng.random() < 0.25 and not ace["feats"]["multi"]:
+            # the same port named twice (number and its name, or the number twice)
+            toks = text.split()
+            pos = len(toks) - 1 - toks[::-1].index("eq")
+            if pos + 1 < len(toks):
+                toks.insert(pos + 2, toks[pos + 1])
+                text = " ".join(toks)
+        case = {"k": "ace", "platform": platform, "text": text, "kwargs": kw}
         for side in ("src", "dst"):
             if ace["sem"][side][0] == "group":
                 case[side + "_items"] = [spell(rng, rand_cube(rng, 2), platform, "Address") for _ in range(rng.randint(1, 3))]
